@@ -32,11 +32,19 @@ Nd(S, n) == S.nodes[n]
 NNodes(S) == S.cfg.N
 Dev(S, d) == InSeq(S.cfg.dev, d)
 
+\* Customer lookup is TOTAL: traces of a faulty implementation may name customers that are not where the
+\* log says (the refinement check then reports drift; the operators must not make TLC fail).
 HasCu(S, i) == \E j \in DOMAIN S.cu : S.cu[j].id = i
 CuIdx(S, i) == CHOOSE j \in DOMAIN S.cu : S.cu[j].id = i
-Cu(S, i) == S.cu[CuIdx(S, i)]
-SetCu(S, i, c) == [S EXCEPT !.cu[CuIdx(S, i)] = c]
-DelCu(S, i) == [S EXCEPT !.cu = RemoveAt(@, CuIdx(S, i))]
+Phantom(i) ==
+    [id |-> i, loc |-> NONE, cls |-> 1, pcls |-> 1, ocls |-> 1, prio |-> 0, pprio |-> 0,
+     arr |-> NONE, ss |-> NONE, st |-> NONE, stm |-> 0, se |-> NONE, srv |-> 0, blk |-> FALSE,
+     dest |-> NONE, intr |-> FALSE, rdate |-> NONE, left |-> NONE, ost |-> NONE, oss |-> NONE,
+     ccd |-> NONE, ncls |-> 1, qa |-> NONE, route |-> <<>>, ws |-> FALSE, lupd |-> NONE,
+     lnode |-> 0, ldest |-> NONE, lexit |-> NONE, larr |-> NONE, ltype |-> "none", nrec |-> 0]
+Cu(S, i) == IF HasCu(S, i) THEN S.cu[CuIdx(S, i)] ELSE Phantom(i)
+SetCu(S, i, c) == IF HasCu(S, i) THEN [S EXCEPT !.cu[CuIdx(S, i)] = c] ELSE S
+DelCu(S, i) == IF HasCu(S, i) THEN [S EXCEPT !.cu = RemoveAt(@, CuIdx(S, i))] ELSE S
 
 IsInfC(S, n) == Nd(S, n).c >= INF
 IsSlotted(S, n) == NodeCfg(S, n).kind = "slot"
@@ -131,10 +139,11 @@ Knot(E) ==
 ----------------------------------------------------------------------------
 (* Servers *)
 
-SrvIdx(S, n, sid) == CHOOSE j \in DOMAIN Nd(S, n).srv : Nd(S, n).srv[j].id = sid
 HasSrv(S, n, sid) == \E j \in DOMAIN Nd(S, n).srv : Nd(S, n).srv[j].id = sid
-Srv(S, n, sid) == Nd(S, n).srv[SrvIdx(S, n, sid)]
-SetSrv(S, n, sid, r) == [S EXCEPT !.nodes[n].srv[SrvIdx(S, n, sid)] = r]
+SrvIdx(S, n, sid) == CHOOSE j \in DOMAIN Nd(S, n).srv : Nd(S, n).srv[j].id = sid
+NoServer(sid) == [id |-> sid, cust |-> 0, busy |-> FALSE, off |-> FALSE, nend |-> INF, start |-> 0, bt |-> 0, send |-> NONE]
+Srv(S, n, sid) == IF HasSrv(S, n, sid) THEN Nd(S, n).srv[SrvIdx(S, n, sid)] ELSE NoServer(sid)   \* total, see Cu
+SetSrv(S, n, sid, r) == IF HasSrv(S, n, sid) THEN [S EXCEPT !.nodes[n].srv[SrvIdx(S, n, sid)] = r] ELSE S
 
 \* a customer whose server object was removed at a pre-emptive shift end keeps a reference to it
 DeadRef(sid) == 0 - (100 + sid)
@@ -172,8 +181,9 @@ KillServer(S, n, sid) ==
         S1 == Step(S, [St("kill") EXCEPT !.n = n, !.s = sid])
         S2 == IF s.cust # 0 /\ HasCu(S1, s.cust) THEN SetCu(S1, s.cust, [Cu(S1, s.cust) EXCEPT !.srv = DeadRef(sid)])
               ELSE S1
-    IN [S2 EXCEPT !.nodes[n].ot = Append(@, S.now - s.send),
-                  !.nodes[n].srv = RemoveAt(@, SrvIdx(S, n, sid))]
+    IN IF ~HasSrv(S, n, sid) THEN S2
+       ELSE [S2 EXCEPT !.nodes[n].ot = Append(@, S.now - s.send),
+                       !.nodes[n].srv = RemoveAt(@, SrvIdx(S, n, sid))]
 
 \* detatch_server: credit = exit_date - service_start_date as the code computes it
 Detach(S, n, sid, i, credit) ==
@@ -739,8 +749,9 @@ RenegeEvent(S, n) ==
                        c == Cu(U, i)
                        nd == Nd(U, n)
                    IN IF ~InSeq(nd.q[c.pprio + 1], i) THEN Crash(U, "ValueError:renege")
-                      ELSE LET U1 == [U EXCEPT !.nodes[n].q[c.pprio + 1] = RemoveFirst(@, i),
+                      ELSE LET U0 == [U EXCEPT !.nodes[n].q[c.pprio + 1] = RemoveFirst(@, i),
                                                !.nodes[n].count = @ - 1]
+                               U1 == IF Dynamic(U0) THEN FindNextClassChange(U0, n) ELSE U0
                                rec == [Rec(c, n, "renege", U.now, c.dest, nd.count - 1, NONE)
                                          EXCEPT !.wait = U.now - c.arr]
                                U2 == WriteRec(U1, i, rec)
@@ -900,6 +911,8 @@ SlottedService(S, n) ==
 ClassChangeEvent(S, n) ==
     LET nd == Nd(S, n)
     IN IF nd.nei = <<>> THEN Crash(S, "AttributeError:change_customer_class_while_waiting")
+       ELSE
+       IF ~HasCu(S, nd.nei[1]) THEN Crash(S, "stale:next_class_change_ind")
        ELSE
        LET i == nd.nei[1]
            c == Cu(S, i)
